@@ -1,6 +1,6 @@
 (* C14 — Optic transformation: well-typed for every diagram; structural characterisation of the optic image of an operation batch (disjoint union of the forward and reverse images glued along the residuals; monoidal on batches); every generator's reverse derivative for ALL inputs; chain rule. PARTIAL: the derivative statement for every circuit (C14Thm.C14_full clause 1-2) is not a theorem — decided on generated circuits by the correspondence check and an independent reverse-mode oracle.
    Property theorems only: each statement is spelled out and closed by [exact] of a lemma proved in Proofs/. *)
-From OHG Require Import Proofs.C14Thm Proofs.C14bThm Proofs.C14cPlain Proofs.C14cBatch Proofs.C14cThm Proofs.HarnessThm.
+From OHG Require Import Proofs.C14Thm Proofs.C14bThm Proofs.C14cPlain Proofs.C14cBatch Proofs.C14cThm Proofs.HarnessThm Proofs.C14dFunct Proofs.C14dPres Proofs.C14fNormal.
 
 Theorem C14_type : forall B : Prims.Backend,
        Backend.BackendOK B ->
@@ -361,20 +361,19 @@ Proof. exact (@C14Thm.C14_full_generators). Qed.
 
 Theorem C14_lens_chain_rule_seq : forall (M N : Type) (n m p : nat) (L1 : lens M) (L2 : lens N) (f g : list BinNums.Z -> list BinNums.Z)
          (J1 J2 : list BinNums.Z -> list (list BinNums.Z)),
-       @rd_lens M n m L1 f J1 ->
-       @rd_lens N m p L2 g J2 ->
-       @rd_lens (M * N) n p (@lens_seq M N L1 L2) (fun x : list BinNums.Z => g (f x))
+       rd_lens n m L1 f J1 ->
+       rd_lens m p L2 g J2 ->
+       rd_lens n p (lens_seq L1 L2) (fun x : list BinNums.Z => g (f x))
          (fun x : list BinNums.Z => mmul n (J2 (f x)) (J1 x)).
 Proof. exact (@C14Thm.C14_lens_chain_rule_seq). Qed.
 
 Theorem C14_lens_chain_rule_par : forall (M N : Type) (n1 m1 n2 m2 : nat) (L1 : lens M) (L2 : lens N)
          (f1 f2 : list BinNums.Z -> list BinNums.Z) (J1 J2 : list BinNums.Z -> list (list BinNums.Z)),
-       @rd_lens M n1 m1 L1 f1 J1 ->
-       @rd_lens N n2 m2 L2 f2 J2 ->
-       @rd_lens (M * N) (n1 + n2) (m1 + m2) (@lens_par M N n1 m1 L1 L2)
-         (fun x : list BinNums.Z => f1 (@List.firstn BinNums.Z n1 x) ++ f2 (@List.skipn BinNums.Z n1 x))
-         (fun x : list BinNums.Z =>
-          blockdiag n1 n2 (J1 (@List.firstn BinNums.Z n1 x)) (J2 (@List.skipn BinNums.Z n1 x))).
+       rd_lens n1 m1 L1 f1 J1 ->
+       rd_lens n2 m2 L2 f2 J2 ->
+       rd_lens (n1 + n2) (m1 + m2) (lens_par n1 m1 L1 L2)
+         (fun x : list BinNums.Z => f1 (List.firstn n1 x) ++ f2 (List.skipn n1 x))
+         (fun x : list BinNums.Z => blockdiag n1 n2 (J1 (List.firstn n1 x)) (J2 (List.skipn n1 x))).
 Proof. exact (@C14Thm.C14_lens_chain_rule_par). Qed.
 
 Theorem C14_composite_square : forall x dz : BinNums.Z,
@@ -411,6 +410,105 @@ Theorem C14_poly_images_monogamous_acyclic : forall a : nat,
        good_circuit (Dispatch.poly_rev a (poly_src a) (poly_tgt a)).
 Proof. exact (@HarnessThm.poly_images_good). Qed.
 
+Theorem C14_optic_preserves_composition : forall f g h : Hyper.ohg nat nat,
+       poly_circuit f ->
+       poly_circuit g ->
+       Hyper.ohg_compose Prims.VecBackend PeanoNat.Nat.eqb f g = Res.Ok (Some h) ->
+       exists F G H FG : Hyper.ohg nat nat,
+         Functor.optic_map_arrow Prims.VecBackend PeanoNat.Nat.eqb poly_strict_optic f = Res.Ok F /\
+         Functor.optic_map_arrow Prims.VecBackend PeanoNat.Nat.eqb poly_strict_optic g = Res.Ok G /\
+         Functor.optic_map_arrow Prims.VecBackend PeanoNat.Nat.eqb poly_strict_optic h = Res.Ok H /\
+         Hyper.ohg_compose Prims.VecBackend PeanoNat.Nat.eqb F G = Res.Ok (Some FG) /\
+         Plain.Iso (Plain.abs H) (Plain.abs FG).
+Proof. exact (@C14dPres.C14_optic_preserves_composition). Qed.
+
+Theorem C14_optic_preserves_tensor : forall f g h : Hyper.ohg nat nat,
+       poly_circuit f ->
+       poly_circuit g ->
+       Hyper.ohg_tensor f g = Res.Ok h ->
+       exists F G H FG : Hyper.ohg nat nat,
+         Functor.optic_map_arrow Prims.VecBackend PeanoNat.Nat.eqb poly_strict_optic f = Res.Ok F /\
+         Functor.optic_map_arrow Prims.VecBackend PeanoNat.Nat.eqb poly_strict_optic g = Res.Ok G /\
+         Functor.optic_map_arrow Prims.VecBackend PeanoNat.Nat.eqb poly_strict_optic h = Res.Ok H /\
+         Hyper.ohg_tensor F G = Res.Ok FG /\ Plain.Iso (Plain.abs H) (Plain.abs FG).
+Proof. exact (@C14dPres.C14_optic_preserves_tensor). Qed.
+
+Theorem C14_optic_respects_iso : forall s s' : Hyper.ohg nat nat,
+       poly_circuit s ->
+       Plain.wf_ohg s' ->
+       Plain.Iso (Plain.abs s) (Plain.abs s') ->
+       exists F F' : Hyper.ohg nat nat,
+         Functor.optic_map_arrow Prims.VecBackend PeanoNat.Nat.eqb poly_strict_optic s = Res.Ok F /\
+         Functor.optic_map_arrow Prims.VecBackend PeanoNat.Nat.eqb poly_strict_optic s' = Res.Ok F' /\
+         Plain.Iso (Plain.abs F) (Plain.abs F').
+Proof. exact (@C14dPres.C14_optic_respects_iso). Qed.
+
+Theorem C14_general_preserves_composition : forall B : Prims.Backend,
+       Backend.BackendOK B ->
+       forall (O1 A1 O2 A2 : Type) (eqO1 : O1 -> O1 -> bool),
+       (forall x y : O1, eqO1 x y = true <-> x = y) ->
+       forall eqO2 : O2 -> O2 -> bool,
+       (forall x y : O2, eqO2 x y = true <-> x = y) ->
+       forall (P : Functor.optic O1 A1 O2 A2) (Fobj Robj : O1 -> list O2)
+         (fimg rimg : A1 * (list O1 * list O1) -> Plain.pohg O2 A2)
+         (Mres : A1 * (list O1 * list O1) -> list O2),
+       C14dDefs.pw_contract P Fobj Robj (fun _ : A1 * (list O1 * list O1) => True) fimg rimg Mres ->
+       forall f g h : Hyper.ohg O1 A1,
+       Plain.wf_ohg f ->
+       Plain.wf_ohg g ->
+       Hyper.ohg_compose B eqO1 f g = Res.Ok (Some h) ->
+       exists F G H FG : Hyper.ohg O2 A2,
+         Functor.optic_map_arrow B eqO2 P f = Res.Ok F /\
+         Functor.optic_map_arrow B eqO2 P g = Res.Ok G /\
+         Functor.optic_map_arrow B eqO2 P h = Res.Ok H /\
+         Hyper.ohg_compose B eqO2 F G = Res.Ok (Some FG) /\ Plain.Iso (Plain.abs H) (Plain.abs FG).
+Proof. exact (@C14_general_preserves_composition). Qed.
+
+Theorem C14_general_preserves_tensor : forall B : Prims.Backend,
+       Backend.BackendOK B ->
+       forall (O1 A1 O2 A2 : Type) (eqO2 : O2 -> O2 -> bool),
+       (forall x y : O2, eqO2 x y = true <-> x = y) ->
+       forall (P : Functor.optic O1 A1 O2 A2) (Fobj Robj : O1 -> list O2)
+         (fimg rimg : A1 * (list O1 * list O1) -> Plain.pohg O2 A2)
+         (Mres : A1 * (list O1 * list O1) -> list O2),
+       C14dDefs.pw_contract P Fobj Robj (fun _ : A1 * (list O1 * list O1) => True) fimg rimg Mres ->
+       forall f g h : Hyper.ohg O1 A1,
+       Plain.wf_ohg f ->
+       Plain.wf_ohg g ->
+       Hyper.ohg_tensor f g = Res.Ok h ->
+       exists F G H FG : Hyper.ohg O2 A2,
+         Functor.optic_map_arrow B eqO2 P f = Res.Ok F /\
+         Functor.optic_map_arrow B eqO2 P g = Res.Ok G /\
+         Functor.optic_map_arrow B eqO2 P h = Res.Ok H /\
+         Hyper.ohg_tensor F G = Res.Ok FG /\ Plain.Iso (Plain.abs H) (Plain.abs FG).
+Proof. exact (@C14_general_preserves_tensor). Qed.
+
+Theorem C14_general_respects_iso : forall B : Prims.Backend,
+       Backend.BackendOK B ->
+       forall (O1 A1 O2 A2 : Type) (eqO2 : O2 -> O2 -> bool),
+       (forall x y : O2, eqO2 x y = true <-> x = y) ->
+       forall (P : Functor.optic O1 A1 O2 A2) (Fobj Robj : O1 -> list O2)
+         (fimg rimg : A1 * (list O1 * list O1) -> Plain.pohg O2 A2)
+         (Mres : A1 * (list O1 * list O1) -> list O2),
+       C14dDefs.pw_contract P Fobj Robj (fun _ : A1 * (list O1 * list O1) => True) fimg rimg Mres ->
+       forall s s' : Hyper.ohg O1 A1,
+       Plain.wf_ohg s ->
+       Plain.wf_ohg s' ->
+       Plain.Iso (Plain.abs s) (Plain.abs s') ->
+       exists F F' : Hyper.ohg O2 A2,
+         Functor.optic_map_arrow B eqO2 P s = Res.Ok F /\
+         Functor.optic_map_arrow B eqO2 P s' = Res.Ok F' /\ Plain.Iso (Plain.abs F) (Plain.abs F').
+Proof. exact (@C14_general_respects_iso). Qed.
+
+Theorem C14_every_circuit_denotable : forall s : Hyper.ohg nat nat,
+       poly_circuit s ->
+       Hyper.ohg_is_monogamous s = Res.Ok true ->
+       Graph.ohg_is_acyclic Prims.VecBackend s = Res.Ok true ->
+       exists
+         (n m : nat) (f : list BinNums.Z -> list BinNums.Z) (J : list BinNums.Z -> list (list BinNums.Z)),
+         denotes s n m f J.
+Proof. exact (@C14fNormal.C14_every_circuit_denotable). Qed.
+
 Print Assumptions C14_type.
 Print Assumptions C14_adapt_type.
 Print Assumptions C14_adapted_type.
@@ -440,3 +538,10 @@ Print Assumptions C14_composite_square.
 Print Assumptions C14_composite_poly.
 Print Assumptions C14_poly_components_meet_contract.
 Print Assumptions C14_poly_images_monogamous_acyclic.
+Print Assumptions C14_optic_preserves_composition.
+Print Assumptions C14_optic_preserves_tensor.
+Print Assumptions C14_optic_respects_iso.
+Print Assumptions C14_general_preserves_composition.
+Print Assumptions C14_general_preserves_tensor.
+Print Assumptions C14_general_respects_iso.
+Print Assumptions C14_every_circuit_denotable.
